@@ -29,7 +29,10 @@ def quiet():
 def family_of(spec):
     kind = spec.get("kind", "tok")
     if kind == "tok":
-        return families.GaussFamily(spec.get("eq", {}))
+        e = dict(spec.get("eq", {}))
+        if spec.get("via", "api") != "api":
+            e["pn_max"] = 1.0  # a geqdsk profile grid is linspace(simagx, sibdry)
+        return families.GaussFamily(e)
     return None
 
 
